@@ -68,6 +68,42 @@ class Closure:
         return f"<closure {getattr(self.node, 'name', 'lambda')}>"
 
 
+class GenValue:
+    """A generator of the followed program: its body runs in the model only as far as the consumer asks (lazily, like the real
+    one), on a helper thread that is never running at the same time as the consumer."""
+
+    def __init__(self, start):
+        self._start = start            # callable(yield_fn) that runs the body
+
+    def __iter__(self):
+        import queue
+        import threading
+        to_gen, to_cons = queue.Queue(), queue.Queue()
+
+        def yield_fn(v):
+            to_cons.put(("item", v))
+            to_gen.get()               # wait until the consumer asks for the next item
+
+        def body():
+            to_gen.get()
+            try:
+                self._start(yield_fn)
+                to_cons.put(("done", None))
+            except BaseException as e:      # Raised / Undecidable travel to the consumer
+                to_cons.put(("error", e))
+        th = threading.Thread(target=body, daemon=True)
+        th.start()
+        while True:
+            to_gen.put(None)
+            kind, v = to_cons.get()
+            if kind == "item":
+                yield v
+            elif kind == "done":
+                return
+            else:
+                raise v
+
+
 class Raised(Exception):
     def __init__(self, what: str):
         self.what = what
@@ -210,6 +246,20 @@ class Machine:
             return self.ev(e.value)
         if isinstance(e, ast.Lambda):
             return Closure(e, self)
+        if isinstance(e, ast.Yield):
+            yf = getattr(self, "yield_fn", None)
+            if yf is None:
+                raise Undecidable("yield outside a followed generator")
+            yf(self.ev(e.value) if e.value is not None else None)
+            return None
+        if isinstance(e, ast.YieldFrom):
+            yf = getattr(self, "yield_fn", None)
+            if yf is None:
+                raise Undecidable("yield outside a followed generator")
+            src = self.ev(e.value)
+            for item in (src if isinstance(src, (list, tuple, GenValue)) else self.iterate(src, e.value)):
+                yf(item)
+            return None
         return Opaque(ast.unparse(e)[:60])
 
     def comprehension(self, e):
@@ -223,6 +273,8 @@ class Machine:
             g = e.generators[i]
             it = self.ev(g.iter)
             if isinstance(it, dict):
+                it = list(it)
+            if isinstance(it, GenValue):
                 it = list(it)
             if not isinstance(it, (list, tuple)):
                 it = self.iterate(it, g.iter)
@@ -391,6 +443,14 @@ class Machine:
                     raise Raised("TypeError")
                 bound[p] = sub.ev(defaults[p])
         env.update(bound)
+        if not isinstance(node, ast.Lambda) and any(isinstance(x, (ast.Yield, ast.YieldFrom)) for st_ in node.body for x in ast.walk(st_)
+                                                    if not isinstance(x, (ast.FunctionDef, ast.Lambda))):
+            def start(yield_fn, sub=sub, node=node):
+                sub.yield_fn = yield_fn
+                kind_, val_ = sub.run_function(node)
+                if kind_ == "raise":
+                    raise Raised(val_)
+            return GenValue(start)
         self.depth = getattr(self, "depth", 0) + 1
         if self.depth > 12:
             raise Undecidable("closure recursion too deep for the model")
@@ -430,6 +490,8 @@ class Machine:
             return d
         if name in ("list", "tuple") and len(args) <= 1:
             v = args[0] if args else []
+            if isinstance(v, GenValue):
+                v = list(v)
             if isinstance(v, dict):
                 v = list(v)
             if isinstance(v, (list, tuple)):
@@ -563,6 +625,8 @@ class Machine:
                 seq = it
             elif isinstance(it, dict):
                 seq = list(it)
+            elif isinstance(it, GenValue):
+                seq = it
             else:
                 seq = self.iterate(it, st.iter)
             broke = False
